@@ -301,6 +301,8 @@ def shared_objects():
     bdyn = bath_dynamics.TwoTimeBathCorrelations(sysm, bath, pt, initial_state=RHO.copy())
     return {"system": sysm, "bath": bath, "params": params, "pt": pt, "ctrl": ctrl, "bdyn": bdyn,
             "params_nomem": oqupy.TempoParameters(dt=0.1, epsrel=1e-7, dkmax=None),
+            "mfsys": oqupy.MeanFieldSystem([oqupy.TimeDependentSystemWithField(lambda t, a: 0.5 * SX + (0.2 * np.cos(t) + 0.1 * a.real) * SZ)],
+                                           field_eom=lambda t, st, a: -0.5j * a - 0.1j * np.trace(st[0] @ SX) + 0.05 * t),
             "tdsys": oqupy.TimeDependentSystem(lambda t: 0.5 * SX + 0.3 * np.cos(2.0 * t) * SZ),
             "rho": RHO.copy(), "psys": oqupy.ParameterizedSystem(lambda x, y: x * SX + y * SZ),
             "pars": np.array([[0.3, 0.1]] * 6)}
@@ -330,6 +332,19 @@ def use(kind, o):
         r = oqupy.state_gradient(system=o["psys"], initial_state=o["rho"], target_derivative=np.array([[0.2, 0.1], [0.1, 0.8]], dtype=complex),
                                  process_tensors=[o["pt"]], parameters=o["pars"], progress_type="silent")
         return np.array(r["gradient"])
+    if kind in ("mf-dt1", "mf-dt2", "mf-cdwf"):
+        # one mean-field system object: MeanFieldTempo with two different time steps, and the process-tensor route
+        if kind == "mf-cdwf":
+            r = oqupy.compute_dynamics_with_field(o["mfsys"], 0.2 + 0.1j, process_tensor_list=[o["pt"]], initial_state_list=[o["rho"]],
+                                                  start_time=0.0, progress_type="silent")
+        else:
+            p_ = oqupy.TempoParameters(dt=0.1 if kind == "mf-dt1" else 0.05, epsrel=1e-7, dkmax=2)
+            r = oqupy.MeanFieldTempo(o["mfsys"], [o["bath"]], p_, [o["rho"]], 0.2 + 0.1j, 0.0).compute(0.21, progress_type="silent")
+        return np.concatenate([np.array(r.system_dynamics[0].states).reshape(-1), np.array(r.fields).reshape(-1)])
+    if kind == "gibbs":
+        g = oqupy.GibbsTempo(oqupy.System(0.3 * SZ), o["bath"], oqupy.GibbsParameters(n_steps=4, epsrel=1e-9))
+        g.compute(progress_type="silent")
+        return np.array(g.get_state())
     if kind in ("td-start0", "td-start1"):
         # one time-dependent system object, computations starting at different times
         return np.array(oqupy.compute_dynamics(o["tdsys"], initial_state=o["rho"], dt=0.1, num_steps=3,
@@ -748,7 +763,7 @@ def run(ctx):
                 raise core.MachineryError(x["detail"])
             ctx.violation("C20:snapshot:%s:%s" % (k, x["what"]), "%s %s: %s" % (k, hd, x), {"snapshot": [c, k]})
     # (C) reuse of shared objects
-    kinds = '{"tempo", "pttempo", "dynamics", "correlations", "gradient", "gradient-inplace", "td-start0", "td-start1", "tebd", "bathcorr-early", "bathcorr-late", "bathocc", "pttempo-nomem-short", "tempo-nomem-long"}'
+    kinds = '{"tempo", "pttempo", "dynamics", "correlations", "gradient", "gradient-inplace", "td-start0", "td-start1", "mf-dt1", "mf-dt2", "mf-cdwf", "gibbs", "tebd", "bathcorr-early", "bathcorr-late", "bathocc", "pttempo-nomem-short", "tempo-nomem-long"}'
     ru = ctx.tlc("ObjectGraph", CFG_USE, label="sequences of computations re-using shared objects", workers=2,
                  constants=dict(consts, Devs="{}", MaxOps="2" if quick else "3", UseKinds=kinds))
     for c, mm in zip(ru.cases, core.pmap(reuse_job, ru.cases)):
